@@ -1,7 +1,7 @@
 """py2meth: translate straight-line methods / functions whose statements are library calls into Lean, the library calls getting
 their meaning from a hand-written "world" (`Model/LossWorld.lean`, `Model/DistPublicWorld.lean`, `Model/NetWorld.lean`).  Stdlib `ast` only; the source is
 parsed, never imported.  Sibling of `py2loop.py` (same discipline, different subset): every statement of every function listed in
-a typing sheet (`targets_losses.py`, `targets_dist_public.py`, `targets_families.py` with world `Model/FamiliesWorld.lean`, `targets_net.py`, `targets_jaxtr.py`, `targets_bnafnet.py`) is translated or the function is REFUSED (an error entry in the
+a typing sheet (`targets_losses.py`, `targets_dist_public.py`, `targets_families.py` with world `Model/FamiliesWorld.lean`, `targets_net.py`, `targets_jaxtr.py`, `targets_bnafnet.py`, `targets_bisectgen.py` with world `Model/BisectWorld.lean`) is translated or the function is REFUSED (an error entry in the
 generation report = a broken tie).
 
 The translation is TYPED: the sheet gives the Lean type of every parameter / class field and a table of primitives
@@ -186,7 +186,20 @@ class Fn:
     defaults: dict = dataclasses.field(default_factory=dict)  # parameter -> the literal text of its default in the signature (checked); a call may then omit it
     literal_kw: tuple = ()  # parameters that call sites may only pass as a literal constant (anything else is refused)
     inline: bool = False    # a method whose body is a single `return <expr>`: not emitted, expanded at every call site (checked on every run)
-    locals: dict = dataclasses.field(default_factory=dict)   # EXTENDED sheets: declared type of a local first bound to `[]`
+    locals: dict = dataclasses.field(default_factory=dict)   # EXTENDED sheets: declared type of a local first bound to `[]`; any sheet: declared type of a
+                                                              # local bound to a tuple display (its int literals are adapted to that type: `init_state = (lower, upper, 0)`)
+    local_classes: dict = dataclasses.field(default_factory=dict)   # nested `class X(NamedTuple)`: name -> LocalClass (fields / defaults checked against the source)
+    returns_none: bool = False   # a procedure (guards only, no `return`): the result is `()`
+
+
+@dataclasses.dataclass
+class LocalClass:
+    """a `class X(NamedTuple)` declared inside a function: `ty` is the (world / generated) structure its instances are, `fields` the
+    annotated fields in order (name, type), `defaults` field -> (source text of the default, Lean term).  The class statement must
+    declare exactly these fields and defaults; `X(a, kw=e, …)` builds the structure with named fields."""
+    ty: object
+    fields: list
+    defaults: dict = dataclasses.field(default_factory=dict)
 
 
 @dataclasses.dataclass
@@ -526,6 +539,9 @@ class Tr:
                 return V(NAT, str(c), lit=c)
             if isinstance(c, str):
                 return V(STR, str_lit(c), lit=c)
+            if isinstance(c, float) and repr(c) in getattr(self.sheet, "FLOAT_LITERALS", {}):
+                ty, code = self.sheet.FLOAT_LITERALS[repr(c)]   # a float literal the sheet gives an exact meaning to (`2.0` is the scalar 2)
+                return V(ty, code)
             raise Refuse(f"constant {c!r}")
         if isinstance(n, ast.Name):
             if n.id in self.env:
@@ -792,6 +808,10 @@ class Tr:
                         raise Refuse(f"starred argument `{ast.unparse(a)}` that is not a tuple")
                     k = len(v.ty) - 1
                     out += [(V(t, proj(paren(v.code), i, k)), None) for i, t in enumerate(v.ty[1:])]
+            elif isinstance(a, ast.Name) and a.id not in self.env and a.id in self.sheet.BUILTINS and getattr(self.sheet, "BUILTIN_ARGS", False):
+                # a builtin passed as an argument (`jnp.asarray(x, float)`): only a literal spec `("lit", "float")` can accept it
+                self.gen.need(self.fn.file, a.id)
+                out.append((V(kind="builtin"), a))
             elif getattr(self.sheet, "LAZY_LIT_ARGS", False):
                 # an argument that only a `("lit", text)` spec can consume (`eqx.is_inexact_array`, a class name) has no value of its own
                 try:
@@ -847,6 +867,9 @@ class Tr:
         if isinstance(f, ast.Call) and ast.unparse(f.func) in self.sheet.VMAP_FUNCS and len(f.args) == 1 and not f.keywords:
             self.need_root(ast.unparse(f.func))
             return self.vmap_call(self.ex(f.args[0]), n)
+        # ---- a local `class X(NamedTuple)`: X(a, kw=e, …) builds the structure
+        if isinstance(f, ast.Name) and f.id in self.env and self.env[f.id].kind == "ctor":
+            return self.local_ctor(self.env[f.id].items, n)
         # ---- a nested def
         if isinstance(f, ast.Name) and f.id in self.env and self.env[f.id].kind == "fn":
             info = self.env[f.id].items
@@ -912,6 +935,54 @@ class Tr:
         # ---- library
         self.need_root(ftext)
         return self.match_prim(f"call:{ftext}", self.args_of(n), n.keywords, what=text[:60])
+
+    def local_ctor(self, spec, n):
+        text = ast.unparse(n)[:60]
+        if any(k.arg is None for k in n.keywords) or any(isinstance(a, ast.Starred) for a in n.args) or len(n.args) > len(spec.fields):
+            raise Refuse(f"`{text}`: arguments of the NamedTuple constructor")
+        vals = {}
+        for (fname, _), a in zip(spec.fields, n.args):
+            vals[fname] = self.ex(a)
+        for k in n.keywords:
+            if k.arg in vals or k.arg not in dict(spec.fields):
+                raise Refuse(f"`{text}`: keyword `{k.arg}`")
+            vals[k.arg] = self.ex(k.value)
+        parts = []
+        for fname, fty in spec.fields:
+            if fname in vals:
+                code = self.coerce(self.adapt(vals[fname], fty), fty).code
+            elif fname in spec.defaults:
+                code = spec.defaults[fname][1]
+            else:
+                raise Refuse(f"`{text}`: field `{fname}` is not given and has no default")
+            parts.append(f"{fname} := {code}")
+        return V(spec.ty, "({ " + ", ".join(parts) + " } : " + self.ty(spec.ty) + ")")
+
+    def do_local_class(self, st):
+        """`class X(NamedTuple): f: T [= default] …` — checked field by field against the sheet, then callable as a constructor"""
+        spec = self.fn.local_classes.get(st.name)
+        if spec is None:
+            raise Refuse(f"nested class `{st.name}` is not in the sheet")
+        if [ast.unparse(b) for b in st.bases] != ["NamedTuple"] or st.keywords or st.decorator_list:
+            raise Refuse(f"nested class `{st.name}` is not a plain `NamedTuple`")
+        self.need_root("NamedTuple")
+        have, defaults = [], {}
+        for b in st.body:
+            if isinstance(b, ast.Expr) and isinstance(b.value, ast.Constant) and isinstance(b.value.value, str):
+                continue
+            if not (isinstance(b, ast.AnnAssign) and isinstance(b.target, ast.Name) and b.simple):
+                raise Refuse(f"nested class `{st.name}`: statement `{ast.unparse(b)[:50]}`")
+            have.append(b.target.id)
+            if b.value is not None:
+                defaults[b.target.id] = ast.unparse(b.value)
+        if have != [f for f, _ in spec.fields]:
+            raise Refuse(f"nested class `{st.name}` declares the fields {have}, the sheet expects {[f for f, _ in spec.fields]}")
+        want = {f: d[0] for f, d in spec.defaults.items()}
+        if defaults != want:
+            raise Refuse(f"nested class `{st.name}` has the defaults {defaults}, the sheet expects {want}")
+        if st.name in self.env:
+            raise Refuse(f"nested class `{st.name}` rebinds a name")
+        self.env[st.name] = V(kind="ctor", items=spec)
 
     def partial_call(self, n):
         text = ast.unparse(n)[:60]
@@ -1058,6 +1129,11 @@ class Tr:
             return
         if v.kind == "empty" and self.ext and name in self.fn.locals:
             v = self.coerce(v, self.fn.locals[name])
+        if v.kind == "tuple" and name in self.fn.locals:
+            # a tuple display bound to a local whose type the sheet declares: int literals take the declared component type
+            v = self.coerce(self.adapt(v, self.fn.locals[name]), self.fn.locals[name])
+        if v.kind == "ctor":
+            raise Refuse(f"`{name}` is bound to a class")
         if v.kind in ("empty", "none"):
             raise Refuse(f"`{name} = {'[]' if v.kind == 'empty' else 'None'}`: type unknown")
         v = self.lean(v)
@@ -1124,6 +1200,19 @@ class Tr:
             return
         if isinstance(tgt, ast.Tuple) and any(isinstance(e, ast.Tuple) for e in tgt.elts):
             return self.destructure(tgt, self.ex(st.value), ast.unparse(st.value)[:50])
+        if getattr(self.sheet, "STAR_DISCARD", False) and isinstance(tgt, ast.Tuple) and len(tgt.elts) >= 2 \
+                and all(isinstance(e, ast.Name) and e.id != "_" for e in tgt.elts[:-1]) and isinstance(tgt.elts[-1], ast.Starred) \
+                and isinstance(tgt.elts[-1].value, ast.Name) and tgt.elts[-1].value.id == "_":
+            # `a, *_ = e` on a value of a product type with at least as many components: the leading names, the rest discarded
+            v = self.lean(self.ex(st.value))
+            k = len(tgt.elts) - 1
+            if not (isinstance(v.ty, tuple) and v.ty[0] == "Tup" and len(v.ty) - 1 >= k):
+                raise Refuse(f"unpacking `{ast.unparse(st.value)[:50]}` of type {v.ty} into `{ast.unparse(tgt)}`")
+            t = v if re.fullmatch(r"t\d+", v.code) else self.emit_let(self.tmp(), v, ascribe=False)
+            self.env.pop("_", None)
+            for i, e in enumerate(tgt.elts[:-1]):
+                self.bind_name(e.id, V(v.ty[1 + i], proj(t.code, i, len(v.ty) - 1)))
+            return
         if isinstance(tgt, ast.Tuple) and all(isinstance(e, ast.Name) for e in tgt.elts):
             v = self.ex(st.value)
             if v.kind == "lean" and isinstance(v.ty, tuple) and v.ty[0] == "Tup":
@@ -1512,7 +1601,7 @@ class Tr:
             return
         if spec.kind not in ("fn", "vmap"):
             raise Refuse(f"nested function `{st.name}` of kind {spec.kind} outside its decorator")
-        sub = Tr(self.gen, self.fn, st, lean, params, env={k: v for k, v in self.env.items() if v.kind in ("lean", "fn", "dict")}, nested=self.nested)
+        sub = Tr(self.gen, self.fn, st, lean, params, env={k: v for k, v in self.env.items() if v.kind in ("lean", "fn", "dict", "ctor")}, nested=self.nested)
         sub.narrow = {k: v for k, v in self.narrow.items() if not any(re.search(rf"\b{re.escape(p)}\b", k) for p, _ in params)}
         info = sub.translate(nested_kind=spec.kind)
         self.frozen |= set(info["captured_py"])
@@ -1556,6 +1645,10 @@ class Tr:
                 if in_branch:
                     raise Refuse("nested function inside a branch")
                 self.do_def(st)
+            elif isinstance(st, ast.ClassDef) and self.fn.local_classes:
+                if in_branch:
+                    raise Refuse("nested class inside a branch")
+                self.do_local_class(st)
             elif isinstance(st, ast.Return):
                 if not (top and last) or st.value is None:
                     raise Refuse("`return` that is not the last statement of the function")
@@ -1576,6 +1669,7 @@ class Tr:
     def captured(self, text):
         """outer variables whose Lean name occurs in the generated text (in the order of the outer environment)"""
         caps = []
+        text = re.sub(r"(?<=[{,] )\w+ := ", "", text)   # field labels of a structure literal `{ f := e, … }` are not variable occurrences
         local = {p for p, _ in self.params} | {x.id for x in ast.walk(self.node) if isinstance(x, ast.Name) and isinstance(x.ctx, ast.Store)}
         for nm in self.env_at_entry:
             v = self.env_at_entry.get(nm)
@@ -1623,6 +1717,8 @@ class Tr:
         if is_method and self.self_ty is not None:
             self.env["self"] = V(self.self_ty, "self_")
         self.block(self.node.body, top=True)
+        if self.ret is None and nested_kind is None and fn.returns_none:
+            self.ret = V("Unit", "()")   # a procedure: falls off the end, returning None
         if self.ret is None:
             raise Refuse("function does not end in `return`")
         for t in self.early:
@@ -2029,7 +2125,7 @@ class Gen:
         return {"text": text, "errors": errors, "targets": [i.lean for i in sheet.ITEMS]}
 
 
-SHEETS = ["targets_losses", "targets_dist_public", "targets_jaxtr", "targets_families", "targets_bnafnet", "targets_net", "targets_unwrap"]
+SHEETS = ["targets_losses", "targets_dist_public", "targets_jaxtr", "targets_families", "targets_bnafnet", "targets_net", "targets_unwrap", "targets_bisectgen"]
 
 
 def generate(repo: str) -> dict:
